@@ -62,6 +62,8 @@ def regen():
     _, _, (der, dal) = T2.generate(derived=True)
     n = sum(len(T2.distinct_event_lists(i)[0]) for q, i in tab.items() if i['public'])
     nd = sum(len({tuple(p) for p in i['paths']}) for i in der.values()) + sum(len(i['paths']) for i in dal.values())
+    nd += sum(len({repr(p['segs']) for p in i['paths'] if p['end'] == 'ret' and any(lp for lp, _ in p['segs'])})
+              for i in tab.values() if i['public'])          # segmented paths (loops with any number of iterations)
     return {'file': 'lean/PMV/Gen/EventPaths.lean', 'source': T2.repo_root(), 'mutators': len(tab),
             'control_flow_paths': sum(len(i['paths']) for i in tab.values()),
             'derived_object_functions': sorted(der), 'derivative_alias_loops': sorted(dal),
